@@ -10,7 +10,7 @@ from . import rec
 from .rec import (NONE, INF, EXIT, Recorder, Ticks, Exhausted, Livelock, Unrepresentable, MachineryError,
                   instrument_node, instrument_arrival_node, instrument_routers, make_individual_class,
                   project, new_records, finalize)
-from .scenario import Ctx, build, normalise, to_cfg, DEN, unit_of
+from .scenario import Ctx, build, normalise, to_cfg, DEN, unit_of, frac_of
 
 U20 = 1 << 20
 
@@ -274,7 +274,7 @@ class Run:
                     post = project(R)
                     post["steps"] = R.take_steps()
                     post["recs"] = new_records(R)
-                    post["ev"] = {"kind": "pause", "node": 0, "cls": 0, "date": Fraction(Ti) * unit_of(sc)}
+                    post["ev"] = {"kind": "pause", "node": 0, "cls": 0, "date": frac_of(sc, Ti)}
                     self.events.append(post)
                 Q.simulate_until_max_time(tv(sc, sc["T"]))
             elif sc["stop"] == "deadlock":
@@ -322,7 +322,7 @@ class Run:
             try:
                 res = Q.statetracker.state_probabilities(observation_period=(tv(sc, a), tv(sc, b)))
             except Exception as e:
-                out.append({"a": Fraction(a) * unit_of(sc), "b": Fraction(b) * unit_of(sc), "res": [], "err": True})
+                out.append({"a": frac_of(sc, a), "b": frac_of(sc, b), "res": [], "err": True})
                 continue
             rows = []
             for st, p in res.items():
@@ -330,14 +330,14 @@ class Run:
                 ok = fr.numerator / fr.denominator == float(p)
                 rows.append({"s": rec.enc_tracker_state(name, st), "un": fr.numerator if ok else -1,
                              "ud": fr.denominator if ok else 1})
-            out.append({"a": Fraction(a) * unit_of(sc), "b": Fraction(b) * unit_of(sc), "res": rows, "err": False})
+            out.append({"a": frac_of(sc, a), "b": frac_of(sc, b), "res": rows, "err": False})
         return out
 
     def trace(self):
         t = {"tid": self.tid, "cfg": to_cfg(self.sc), "init": self.init, "events": self.events,
              "final": self.final, "outcome": self.outcome,
              "crash": self.crash or {"type": "", "where": "", "msg": ""}}
-        t = finalize(t)
+        t = finalize(t, dec=self.sc.get("dec", 0), eps=self.sc.get("eps", 0))
         t["cfg"]["scale"] = t["scale"]
         return t
 
